@@ -17,6 +17,11 @@ def run_one(mid, props):
         assert s.count(m['old']) >= 1, f'{mid}: pattern not found'
         s = s.replace(m['old'], m['new'], 1 if not m.get('all') else -1)
         f.write_text(s)
+        for extra in m.get('also', []):
+            f2 = td / 'src' / 'amisc' / extra['file']
+            s2 = f2.read_text()
+            assert s2.count(extra['old']) >= 1, f'{mid}: extra pattern not found'
+            f2.write_text(s2.replace(extra['old'], extra['new'], 1))
         env = dict(os.environ, AMISC_SRC=str(td / 'src'))
         out = {}
         for p in (props or m['props']):
